@@ -165,12 +165,13 @@ func (d Dict) tones(name string) ([]int, bool) {
 }
 
 type C16Case struct {
-	Kind    string `json:"kind"` // builtin | attrs | user | bad
-	Sym     string `json:"sym,omitempty"`
-	Dict    *Dict  `json:"dict,omitempty"`
-	Use     string `json:"use,omitempty"`     // chord symbol the piece plays
-	Bad     string `json:"bad,omitempty"`     // kind of inconsistency
-	Command string `json:"command,omitempty"` // for bad: which resolving command
+	Kind    string   `json:"kind"` // builtin | attrs | user | bad
+	Sym     string   `json:"sym,omitempty"`
+	Dict    *Dict    `json:"dict,omitempty"`
+	Use     string   `json:"use,omitempty"`     // chord symbol the piece plays
+	Seq     []string `json:"seq,omitempty"`     // user: several chords in one piece (resolution must not depend on what was played before)
+	Bad     string   `json:"bad,omitempty"`     // kind of inconsistency
+	Command string   `json:"command,omitempty"` // for bad: which resolving command
 }
 
 func oneChordDoc(name string) string {
@@ -298,24 +299,47 @@ func checkC16(c C16Case) *Violation {
 		}
 	case "user":
 		files, args := c.Dict.filesAndArgs()
-		want, ok := c.Dict.tones(c.Use)
-		if !ok {
-			return vio("harness", "model cannot resolve %s", c.Use)
+		seq := c.Seq
+		if len(seq) == 0 {
+			seq = []string{c.Use}
 		}
-		res := Run{Argv: append([]string{"write"}, args...), Stdin: oneChordDoc(c.Use), Files: files}.Exec()
+		var doc strings.Builder
+		for _, u := range seq {
+			doc.WriteString(oneChordDoc(u))
+		}
+		res := Run{Argv: append([]string{"write"}, args...), Stdin: doc.String(), Files: files}.Exec()
 		if v := cleanOutcome(res); v != nil {
 			return v
 		}
-		ctx := fmt.Sprintf("\nargs %v\n%s", args, dumpFiles(files))
+		ctx := fmt.Sprintf("\nargs %v\npiece plays %q\n%s", args, seq, dumpFiles(files))
 		if res.Exit != 0 {
-			return vio("user-chord-refused", "a consistent user dictionary is refused when playing %q: %s%s", c.Use, firstLines(res.Stderr, 2), ctx)
+			return vio("user-chord-refused", "a consistent user dictionary is refused when playing %q: %s%s", seq, firstLines(res.Stderr, 2), ctx)
 		}
-		got, err := soundedTones(res.Stdout)
-		if err != nil {
+		_, song, err := decode(res.Stdout)
+		if err != nil || len(song.Tracks) != 1 {
 			return vio("user-output", "%v%s", err, ctx)
 		}
-		if !eqInts(got, sortedInts(want)) {
-			return vio("user-chord-tones", "user chord %q sounds %v above the root, its definition (parents first, then own attributes) gives %v%s", c.Use, got, sortedInts(want), ctx)
+		groups := noteGroups(song.Tracks[0])
+		if len(groups) != len(seq) {
+			return vio("user-output", "%d chords written, %d sounded%s", len(seq), len(groups), ctx)
+		}
+		for k, u := range seq {
+			want, ok := c.Dict.tones(u)
+			if !ok {
+				return vio("harness", "model cannot resolve %s", u)
+			}
+			// first note-on is the bass (48 for a unison bass on degree 1 in C); the rest are the tones
+			g := groups[k]
+			if len(g) == 0 || g[0] != 48 {
+				return vio("user-output", "chord %d (%q): no bass note 48 in %v%s", k, u, g, ctx)
+			}
+			var got []int
+			for _, p := range g[1:] {
+				got = append(got, p-60)
+			}
+			if !eqInts(sortedInts(got), sortedInts(want)) {
+				return vio("user-chord-tones", "chord %d of the piece, %q, sounds %v above the root; its definition (parents first, then own attributes) gives %v%s", k, u, sortedInts(got), sortedInts(want), ctx)
+			}
 		}
 	case "bad":
 		files, args := c.Dict.filesAndArgs()
@@ -556,7 +580,17 @@ func TestC16(t *testing.T) {
 			return
 		}
 		use := rapid.SampledFrom(usable).Draw(t, "use")
-		c := C16Case{Kind: "user", Dict: &d, Use: use}
+		// several chords in one run, with repeats (A B A): what a symbol means must not depend on what was played before
+		pool := append([]string{"7", "9", "m7", "6", "MajorSeventh", "dim7"}, usable...)
+		seq := []string{use}
+		for n := rapid.IntRange(0, 6).Draw(t, "more"); n > 0; n-- {
+			if len(seq) >= 2 && coin(t, "repeat-earlier", 40) {
+				seq = append(seq, seq[rapid.IntRange(0, len(seq)-2).Draw(t, "earlier")])
+			} else {
+				seq = append(seq, rapid.SampledFrom(pool).Draw(t, "next"))
+			}
+		}
+		c := C16Case{Kind: "user", Dict: &d, Use: use, Seq: seq}
 		inherited := false
 		for _, f := range d.ChordFiles {
 			for _, ch := range f {
@@ -573,8 +607,11 @@ func TestC16(t *testing.T) {
 			cls = append(cls, "split-over-several-files")
 		}
 		files, _ := d.filesAndArgs()
-		r.Case("U"+use+dumpFiles(files), inherited, cls...)
-		r.Sample(map[string]any{"use": use, "files": files})
+		if len(seq) > 2 {
+			cls = append(cls, "several-chords-in-one-run")
+		}
+		r.Case("U"+fmt.Sprint(seq)+dumpFiles(files), inherited, cls...)
+		r.Sample(map[string]any{"plays": seq, "files": files})
 		r.Check(t, checkC16(c), "c16", c)
 
 		// (c) one inconsistency injected into this valid dictionary
